@@ -752,6 +752,18 @@ def c07_battery(binary):
                 break
         for extra in ([], ["--cache"], ["-o", os.path.join(d, "out.txt")], ["--threads", "1"]):
             check("group %s" % " ".join(extra), ["group"] + extra + [root])
+        # the private copy of a file cannot be made (the creation / the copying of the temp file fails): still nothing may change
+        shim = os.path.join(d, "faultfs.so")
+        here = os.path.dirname(os.path.abspath(__file__))
+        if subprocess.run(["clang", "-shared", "-fPIC", "-O1", "-o", shim, os.path.join(here, "faultfs.c"), "-ldl"], stderr=subprocess.PIPE).returncode == 0:
+            base_env = dict(env)
+            for plan in ("create:1", "create:2", "copy:1", "create:1,create:2,create:3,create:4,create:5,create:6"):
+                for errno_ in ("EIO", "ENOSPC", "EACCES"):
+                    env.clear()
+                    env.update(base_env, LD_PRELOAD=shim, VERIF_ARMED="1", FAULT_PLAN=plan, FAULT_ERRNO=errno_)
+                    check("group --transform 'cat $IN' with a failing temp copy (%s %s)" % (plan, errno_), ["group", "--transform", "cat $IN", root])
+            env.clear()
+            env.update(base_env)
         rep = os.path.join(d, "rep.txt")
         with open(rep, "wb") as f:
             subprocess.run([binary, "group", root], stdout=f, stderr=subprocess.PIPE, env=env, timeout=60)
